@@ -7,7 +7,7 @@ from jugverif import core, execchecks as X, execengine as E, lib, sched
 LEVEL = 'proof'
 THEOREMS = ['Jug.C11.keep_going_completes_independents', 'Jug.C11.failedT_iff', 'Jug.C11.failure_stores_nothing', 'Jug.C11.failed_cannot_dump', 'Jug.C11.dependents_never_start', 'Jug.C11.exit_nonzero_after_failure',
             'Jug.C11.failed_unlock', 'Jug.C11.failed_mark', 'Jug.C11.failed_lock_blocks', 'Jug.C11.failed_lock_no_begin', 'Jug.C11.failed_lock_persists',
-            'Jug.C11.cleanup_failed_reenables', 'Jug.C11.keep_going_continues', 'Jug.C11.failed_cannot_exit_holding']
+            'Jug.C11.cleanup_failed_reenables', 'Jug.C11.keep_going_continues', 'Jug.C11.failed_cannot_exit_holding', 'Jug.LoopBridge.keep_going_completes_of_loop_workers']
 
 
 def cleanup_failed_only(backend):
